@@ -126,16 +126,12 @@ Qed.
 (* identification keeps the invariant: it only runs while no protocol is set, and then
    no parser state exists yet *)
 Lemma tcb_inv_identify (E : env) (tc : tcb) (data : bytes) :
-  tcb_inv tc ->
-  tcb_inv (if t_proto tc =? PROTO_NONE then
-             let '(id, st, _) := search_next (e_proto_tbl E) (t_smack tc) data in
-             {| t_smack := st; t_proto := id_of id; t_pstate := t_pstate tc |}
-           else tc).
+  tcb_inv tc -> tcb_inv (fst (tcp_identify E tc data)).
 Proof.
-  intros Hinv. destruct (t_proto tc =? PROTO_NONE) eqn:E0; [|exact Hinv].
-  apply N.eqb_eq in E0. destruct (search_next _ _ data) as [[id st] n].
-  unfold tcb_inv in *. cbn [t_pstate t_proto].
-  destruct (t_pstate tc) as [[h|r]|]; [| |exact I]; rewrite E0 in Hinv; discriminate.
+  intros Hinv. unfold tcp_identify. destruct (t_proto tc =? PROTO_NONE) eqn:E0; [|exact Hinv].
+  apply N.eqb_eq in E0. destruct (search_next _ _ data) as [[[i|] st] n];
+  unfold tcb_inv in *; cbn [fst t_pstate t_proto];
+  (destruct (t_pstate tc) as [[h|r]|]; [| |exact I]; rewrite E0 in Hinv; discriminate).
 Qed.
 
 Theorem proto_repl_tcp_inv (E : env) (clk : clock) (ci : cinfo) (tc : tcb) (data : bytes) :
@@ -144,11 +140,11 @@ Theorem proto_repl_tcp_inv (E : env) (clk : clock) (ci : cinfo) (tc : tcb) (data
 Proof.
   intros Hinv ci' tc' out. unfold proto_repl_tcp.
   pose proof (tcb_inv_identify E tc data Hinv) as H1.
-  set (tc1 := if t_proto tc =? PROTO_NONE then _ else tc) in *.
-  destruct (dispatch E clk ci (t_proto tc1) (Some tc1) data) as [[[ci1 t1] out1]|site] eqn:Hd; cbn [bind]; [|discriminate].
+  destruct (tcp_identify E tc data) as [tc1 data1]. cbn [fst] in H1.
+  destruct (dispatch E clk ci (t_proto tc1) (Some tc1) data1) as [[[ci1 t1] out1]|site] eqn:Hd; cbn [bind]; [|discriminate].
   intros H. injection H as <- <- <-.
   destruct t1 as [t1|]; [|exact H1].
-  apply (dispatch_tcb_inv E clk ci tc1 data H1 _ _ _ Hd).
+  apply (dispatch_tcb_inv E clk ci tc1 data1 H1 _ _ _ Hd).
 Qed.
 
 (* every control block reachable on a flow satisfies the invariant, hence on every flow
@@ -167,10 +163,7 @@ Qed.
 
 Theorem rpc_pstate_panic_unreachable (E : env) (tc : tcb) (data : bytes) :
   tcb_reach E tc ->
-  let tc1 := if t_proto tc =? PROTO_NONE then
-               let '(id, st, _) := search_next (e_proto_tbl E) (t_smack tc) data in
-               {| t_smack := st; t_proto := id_of id; t_pstate := t_pstate tc |}
-             else tc in
+  let tc1 := fst (tcp_identify E tc data) in
   (t_proto tc1 = PROTO_RPC_TCP -> exists r, rpc_pstate_sel tc1 = Ok r) /\
   (t_proto tc1 = PROTO_HTTP -> exists h, http_pstate_sel tc1 = Ok h).
 Proof.
